@@ -100,7 +100,19 @@ macro_rules! diff_int {
                                 }
                             }
                             14 => {
-                                l.with_mut(|v| *v = v.wrapping_mul(3).wrapping_add(a));
+                                if (a as u64 ^ b2 as u64) & 3 == 1 {
+                                    // the closure writes and then fails, the program catches the panic and carries on: what was
+                                    // written through the `&mut` stays written (std: through get_mut)
+                                    let r = std::panic::catch_unwind(std::panic::AssertUnwindSafe(|| {
+                                        l.with_mut(|v| {
+                                            *v = v.wrapping_mul(3).wrapping_add(a);
+                                            panic!("{}with_mut closure", USER_PANIC_PREFIX)
+                                        })
+                                    }));
+                                    assert!(r.is_err());
+                                } else {
+                                    l.with_mut(|v| *v = v.wrapping_mul(3).wrapping_add(a));
+                                }
                                 let v = s.get_mut();
                                 *v = v.wrapping_mul(3).wrapping_add(a);
                                 (String::new(), String::new())
